@@ -379,7 +379,7 @@ func newMetrics(withReset bool) *instance {
 			case "record":
 				code, _ := strconv.Atoi(parts[1])
 				lat, _ := strconv.Atoi(parts[2])
-				m.Record(code, time.Duration(lat)*time.Millisecond)
+				m.Record(code, time.Duration(50+lat)*time.Millisecond) // every concurrent sample takes 50 ms or more
 				records.Add(1)
 				if code == 502 || code == 504 {
 					neterr.Add(1)
@@ -423,6 +423,21 @@ func newMetrics(withReset bool) *instance {
 			}
 			if got := m.NetworkErrorCount(); got != neterr.Load() {
 				return fmt.Sprintf("lost update: %d network-error records, NetworkErrorCount() = %d", neterr.Load(), got)
+			}
+			// the latency histogram has no count to read, so it is weighed: as many 1 ms samples as
+			// there were concurrent ones (all >= 50 ms) are added now; if none was lost, the upper 48 %
+			// of all samples are concurrent ones
+			if n := records.Load(); n >= 25 { // (with fewer samples the 52nd percentile is not yet past the middle)
+				for i := int64(0); i < n; i++ {
+					m.Record(299, time.Millisecond)
+				}
+				h, err := m.LatencyHistogram()
+				if err != nil {
+					return fmt.Sprintf("LatencyHistogram: %v", err)
+				}
+				if q := h.LatencyAtQuantile(52); q < 49*time.Millisecond {
+					return fmt.Sprintf("lost update: %d latency samples of 50 ms or more were recorded concurrently and then %d samples of 1 ms one after another, yet the 52nd percentile of the histogram is %v: concurrent samples are missing", n, n, q)
+				}
 			}
 			counts := m.StatusCodesCounts()
 			bad := ""
@@ -533,6 +548,9 @@ func newConnLimiter() *instance {
 			}
 		}
 		inside[i].Add(-1)
+		if r.Header.Get("X-Want") == "504" { // this exchange breaks off the way a reverse proxy aborts one
+			panic(http.ErrAbortHandler)
+		}
 		inner.ServeHTTP(w, r)
 	})
 	cl, err := connlimit.New(handler, srcExtractor, limit)
@@ -543,8 +561,19 @@ func newConnLimiter() *instance {
 	return &instance{
 		exec: func(g int, op string) {
 			rec := httptest.NewRecorder()
-			cl.ServeHTTP(rec, request(op))
-			if rec.Code != http.StatusTooManyRequests {
+			aborted := false
+			func() {
+				defer func() {
+					if p := recover(); p != nil {
+						if p != http.ErrAbortHandler {
+							panic(p)
+						}
+						aborted = true
+					}
+				}()
+				cl.ServeHTTP(rec, request(op))
+			}()
+			if !aborted && rec.Code != http.StatusTooManyRequests {
 				ok.Add(1)
 			}
 		},
